@@ -152,14 +152,29 @@ def run_property(run, pid, families, prop_file, proof_files, n_quick=210, n_thor
             if len(t) >= 2 and not l.startswith("#"):
                 corpus_ids.append((t[0], t[1]))
     supbin = os.path.join(C.BIN, "sup")
+    expected, harness_rc = 0, []
     for seed, fam in corpus_ids:
         rc, out = C.sh([supbin, "-child", "-seed", seed, "-family", fam], timeout=60)
+        expected += 1
+        if rc != 0:
+            harness_rc.append(("corpus %s/%s" % (fam, seed), rc, out[-300:]))
         scens += split_scenarios(out)
     per = max(1, n // len(families))
     for k, fam in enumerate(families):
         rc, out = C.sh([supbin, "-n", str(per), "-seed", str(run.seed * 1000 + k * 7 + sum(map(ord, pid)) % 97), "-family", fam,
                         "-par", str(C.NPROC)], timeout=3000)
+        expected += per
+        if rc != 0:
+            harness_rc.append(("family %s" % fam, rc, out[-300:]))
         scens += split_scenarios(out)
+    # a harness that exits non-zero or produces (almost) nothing is not a pass: zero scenarios would otherwise be
+    # zero disagreements
+    if harness_rc or len(scens) * 2 < expected:
+        run.violation("harness-failed", {"expected_scenarios": expected, "produced": len(scens), "nonzero_exits": harness_rc},
+                      "the supervisor harness build/bin/sup %s: the correspondence of %s was not checked" % (
+                          "exited non-zero (%s)" % ", ".join("%s: rc=%s" % (w, r) for w, r, _ in harness_rc) if harness_rc
+                          else "produced %d of the %d expected scenarios" % (len(scens), expected), pid),
+                      no_input_found=True)
     lines, tot = run_model(scens, C.NPROC)
     mine_rej, other_rej = 0, 0
     seen = set()
@@ -252,6 +267,21 @@ def run_property(run, pid, families, prop_file, proof_files, n_quick=210, n_thor
                 if ran:
                     run.notes.append("known finding %s: %d scenarios of family %s ran and none exhibited it - the entry "
                                      "in known_findings.txt may be stale" % (key, len(ran), fam))
+    # an inconclusive verdict (the acceptor's closure ran out of fuel: SUP_FUEL, default 2500 steps per event) is
+    # neither acceptance nor rejection; fuel is counted in closure steps, not in time, so the rate does not depend on
+    # the load of the machine (0 - 0.5 % on the unchanged tree over the runs measured); a change that blows the
+    # frontier must not turn into silent non-coverage
+    inc, nsc = tot.get("inconclusive", 0), tot.get("scenarios", 0)
+    cov["acceptor_inconclusive_rate"] = round(inc / nsc, 4) if nsc else None
+    if inc > max(5, 0.05 * nsc):
+        run.violation("acceptor-inconclusive", {"inconclusive": inc, "scenarios": nsc},
+                      "the trace acceptor was inconclusive (out of fuel) on %d of %d scenarios (> 5 %%): the model's "
+                      "tau-closure no longer fits the budget, these traces were neither accepted nor rejected" % (inc, nsc),
+                      no_input_found=True)
+    if nsc < len(scens):
+        run.violation("harness-failed", {"scenarios_given": len(scens), "scenarios_evaluated": nsc},
+                      "the model driver evaluated %d of the %d scenarios the harness produced" % (nsc, len(scens)),
+                      no_input_found=True)
     run.assumptions += ["quiescence is detected from runtime.Stack statuses of all goroutines",
                         "a mutex-ordered event log is a linearisation consistent with real-time order at the mock/API boundary"]
 
